@@ -152,6 +152,8 @@ ConsumeResult ==
                /\ Check(C_SetsDisjoint(r), "C15.SetsDisjoint", <<"succeeded", r.succ, "failed", r.failed>>)
                /\ Check(C_SetsCoverAddressed(r, cl, cs.topo), "C15.SetsCoverAddressed",
                         <<"succeeded", r.succ, "failed", r.failed, "addressed", Addressed(cl, cs.topo)>>)
+               /\ Check(C_FailedSetIsFailedCalls(r, cl, cs.topo), "C15.FailedSetIsFailedCalls",
+                        <<"type", r.type, "succeeded", r.succ, "failed", r.failed, "calls", cl>>)
                /\ CheckDev(A_SucceededIsSucceededSetpoints(r, cl), "AUX.SucceededIsSucceededSetpoints",
                            <<"succeeded_power", r.sp, "calls", cl>>, devs)
                /\ CheckDev(A_ConservesRequest(cl, r.ex, cs.req), "AUX.SetpointsPlusExcessIsRequest",
